@@ -10,7 +10,8 @@ tool passes are ASCII, so the crate's byte offsets (`key.len()`, `s.get(0..prefi
 `as_bytes().get(i)`) coincide with character offsets at the places where they are used.
 
 Part 2 is `parse_args` step by step, in the order of the Rust function (every `contains` /
-`opt_value_from_str` consumes arguments, later calls see what is left).  It is written once,
+`opt_value_from_str` consumes arguments, later calls see what is left; in particular the values of
+`-f -c -b -l` are consumed BEFORE `-h` / `--help` is looked for).  It is written once,
 over an interface `Ops σ` of the three `Arguments` operations, and instantiated with the
 `pico_args` model (`picoOps`); the theorems of `Tuc.Props.C19Argv` instantiate the same text with
 an abstract table of option groups and prove the two agree on canonical command lines.
@@ -310,12 +311,15 @@ def charsRegexText : Arg := ['\\', 'b', '|', '\\', 'B']
 def parseWith {σ : Type} (ops : Ops σ) (regexOk : Arg → Bool) : P σ ArgvResult := do
   let noArgs ← P.test ops.isEmpty
   P.exitIf noArgs .help                                          -- `args().len() == 1`: short help
-  let hasHelp ← ops.flag kHelp
-  P.exitIf hasHelp .help
+  -- the bounds values first: with `combined-flags` a value such as `-1=hello` would otherwise be
+  -- searched for the `h` of `-h` (so a bounds value that does not parse, or a `-f` without value,
+  -- is reported — exit 1 — even when `-h` is also given)
   let maybeFields ← ops.value kFields boundsArg
   let maybeCharacters ← ops.value kCharacters boundsArg
   let maybeBytes ← ops.value kBytes boundsArg
   let maybeLines ← ops.value kLines boundsArg
+  let hasHelp ← ops.flag kHelp                                   -- `contains(["-h", "--help"])`: the help
+  P.exitIf hasHelp .help
   let defaultBounds : Bool :=
     !maybeFields.isSome && !maybeBytes.isSome && !maybeCharacters.isSome && !maybeLines.isSome
   let boundsType : BoundsType :=
